@@ -44,6 +44,14 @@ AllowedC17(cfg, c, from, native, auth) ==
         ELSE IF AUTH \in cfg.reg THEN from = AUTH ELSE from = "none")
   /\ (from # "none" => (native <=> from \in cfg.native))                \* plain TLS connections unless native ones were requested
 
+\* A later GetListener(name) for a name that is already registered returns the existing sub-listener: it requests
+\* nothing, so the registry - in particular whether that sub-listener hands out native connections - is unchanged.
+\* (Only the option-less second lookup is in the universe: what a second lookup WITH options should do is not stated.)
+Lookup(cf, n) == cf
+\* a node's client state (st: none / big = 4 KiB carried in the authentication request, i.e. many more ALPN chunks)
+\* has no bearing on routing: Routes and AllowedC17 do not read it
+States == {"none", "big"}
+
 Configs == {cf \in [reg : SUBSET Names, native : SUBSET Names] : cf.native \subseteq cf.reg}
 ExtrasLists == {<<>>} \cup {<<a>> : a \in Offerable} \cup {<<a, b>> : a \in Offerable, b \in Offerable}
 Clients == [kind : {"node", "nodeAfter", "nodeBefore", "base", "fetch", "rogue"}, extras : ExtrasLists]
